@@ -220,6 +220,9 @@ def run():
     print(f"[*] Checking for TLS traffic on these ports: {server_ports}")
 
     for ts, buf in pcap_reader:
+        if args.pcaplegacy:
+            ts = float(ts)  # dpkt yields decimal.Decimal timestamps for nanosecond-resolution pcap files
+
         packet = Packet(buf, ts)
 
         if ts == -1:
